@@ -5,6 +5,7 @@ import ChaiVerif.Drv.File
 import ChaiVerif.Drv.Json
 import ChaiVerif.Drv.Prelude
 import ChaiVerif.Drv.Env
+import ChaiVerif.Drv.Dispatch
 open ChaiVerif.Drv
 
 def main (args : List String) : IO UInt32 := do
@@ -16,5 +17,6 @@ def main (args : List String) : IO UInt32 := do
   | ["json"] => lineLoop jsonLine; return 0
   | ["prelude"] => lineLoop preludeLine; return 0
   | ["state"] => lineLoop stateLine; return 0
+  | ["dispatch"] => lineLoop dispLine; return 0
   | ["arith-abi"] => (abiLines.forM IO.println); return 0
   | _ => IO.eprintln "usage: chaimodel <mode>"; return 2
